@@ -380,5 +380,16 @@ func c08AclReplay(part string, raw json.RawMessage) (bool, bool, string) {
 }
 
 func TestVerifC08AclContract(t *testing.T) {
-	evidence.Main(t, "C08", evidence.Seq{Run: c08AclContract, Replay: c08AclReplay})
+	// session-delivery parts (aclsession_test.go): several destinations in one session through the
+	// real chain, judged by where the datagrams arrive; added after the independently seeded
+	// change C08-8 (udpConnAdapter.WriteTo kept the previous destination's ResolveInfo)
+	evidence.Main(t, "C08", evidence.Seq{
+		Run: func(sh *evidence.Shard) { c08AclContract(sh); c08SessionDelivery(sh) },
+		Replay: func(part string, raw json.RawMessage) (bool, bool, string) {
+			if h, r, d := c08AclReplay(part, raw); h {
+				return h, r, d
+			}
+			return c08SessReplay(part, raw)
+		},
+	})
 }
